@@ -243,16 +243,7 @@ def trim_count(idx, rep, lanczos, fact, init, size_text):
     loc = [idx.loc(lanczos.module, lanczos.node)]
     if kind_ == "cond-evaluations":
         # read off the loop runners: `info['iterations'] += 1` sits in the function that is handed to while_loop as the CONDITION
-        confirmed = []
-        for f in idx.funcs_named("while_loop_winfo"):
-            for inc in [n for n in ast.walk(f.node) if isinstance(n, ast.AugAssign) and isinstance(n.op, ast.Add) and isinstance(n.target, ast.Subscript)
-                        and isinstance(n.target.slice, ast.Constant) and n.target.slice.value == "iterations"]:
-                owner = inc
-                while owner is not None and not isinstance(owner, (ast.FunctionDef, ast.Lambda)):
-                    owner = getattr(owner, "_parent", None)
-                as_cond = any(isinstance(c, ast.Call) and nospace(c.func).endswith("while_loop") and c.args and isinstance(c.args[0], ast.Name) and owner is not None
-                              and c.args[0].id == getattr(owner, "name", None) for c in ast.walk(f.node))
-                confirmed.append(as_cond)
+        confirmed = [role == "cond" for _f, role, _n in lp.runner_iteration_sites(idx)]
         if not confirmed or not all(confirmed):
             rep.undecided("trimming", "lanczos:count", f"N = `{ast.unparse(e)}`: what the runner's 'iterations' counts could not be read off while_loop_winfo", locs=loc)
             return
